@@ -792,6 +792,7 @@ func propC18(run *Run, n int) {
 	metas := c18MergeMetas()
 	// arrays beyond a million elements (an index of seven digits): one case per run, two more in the thorough tier
 	addC18LargeIndexCase(run, 1000003+r.Intn(5), []int{999999, 1000001}, -1, r.Chance(1, 2))
+	addC18AfterRefusalCase(run)
 	if run.Tier == "thorough" {
 		addC18LargeIndexCase(run, 1000010, []int{3}, 1000002, true)
 		addC18LargeIndexCase(run, 2097160, []int{1048576, 2097152}, 2097158, false)
